@@ -210,15 +210,24 @@ def updateNamespace (attrs : List Attr) (m : NsMap) : NsMap :=
 def odSet (d : List ((Str × Str) × Tok)) (k : Str × Str) (v : Tok) : List ((Str × Str) × Tok) :=
   if d.any (·.1 == k) then d.map (fun e => if e.1 == k then (k, v) else e) else d ++ [(k, v)]
 
+def unpackStep (m : NsMap) (default : Str) (restricted : Bool) (d : List ((Str × Str) × Tok)) (a : Attr) :
+    CRes (List ((Str × Str) × Tok)) :=
+  match splitColon a.name.str with
+  | some (pfx, local_) =>
+    match m.get (some pfx) with
+    | some ns => pure (odSet d (ns, local_) a.value)
+    | none => if restricted then .error (.crash "KeyError") else pure (odSet d (default, local_) a.value)
+  | none => pure (odSet d (default, a.name.str) a.value)
+
 def unpackAttributes (attrs : List Attr) (m : NsMap) (default : Str) (restricted : Bool) :
     CRes (List ((Str × Str) × Tok)) :=
-  attrs.foldlM (fun d a =>
-    match splitColon a.name.str with
-    | some (pfx, local_) =>
-      match m.get (some pfx) with
-      | some ns => pure (odSet d (ns, local_) a.value)
-      | none => if restricted then .error (.crash "KeyError") else pure (odSet d (default, local_) a.value)
-    | none => pure (odSet d (default, a.name.str) a.value)) []
+  attrs.foldlM (unpackStep m default restricted) []
+
+/-- `attribute['namespace']` as `unpack_attributes` records it on the attribute itself -/
+def attrNamespace (m : NsMap) (default : Str) (a : Attr) : Str :=
+  match splitColon a.name.str with
+  | some (pfx, _) => (m.get (some pfx)).getD default
+  | none => default
 
 /-- the local-name token of each attribute, keyed like `unpack_attributes` keys them -/
 def unpackNames (attrs : List Attr) (m : NsMap) (default : Str) : List ((Str × Str) × Tok) :=
